@@ -22,6 +22,28 @@ from .common import Check
 
 MUT = "__mutable_default__"
 TYPE_IDS = {"int": 0, "str": 1, "any": 2}
+# the names `Schema` itself keeps out of fields and additions (exclude_vars of the Schema parser: its own members)
+SCHEMA_EXCLUDED = ["__annotations__", "__class_getitem__", "__coerce_property__", "__contains__", "__delitem__", "__dict__",
+                   "__doc__", "__field_deleter__", "__field_getter__", "__field_setter__", "__from__", "__getitem__",
+                   "__init_subclass__", "__ior__", "__module__", "__name__", "__options__", "__parser__", "__parser_cls__",
+                   "__post_init__", "__repr__", "__setitem__", "__str__", "__validate__", "__weakref__", "clear", "copy",
+                   "pop", "popitem", "setdefault", "update"]
+
+
+def own_excluded(cd):
+    """names of a class body that are no fields: methods, `_private` attributes, ClassVar annotations"""
+    return list(cd.get("methods") or []) + list(cd.get("privates") or []) + list(cd.get("classvars") or [])
+
+
+def shares_mutable(a, b) -> bool:
+    """some list/dict inside `a` is the very object found inside `b` (a default handed out without a full copy)"""
+    def walk(x, acc):
+        if isinstance(x, (list, dict)):
+            acc.add(id(x))
+            for y in (x.values() if isinstance(x, dict) else x):
+                walk(y, acc)
+        return acc
+    return bool(walk(a, set()) & walk(b, set()))
 PREDS = {"falsy": 0, "none": 1}
 PRED_FN = {"falsy": lambda v: not v, "none": lambda v: v is None}
 OPT_DEFAULTS = {
@@ -142,11 +164,15 @@ def flatten(classes, t):
     o, at = eff_opts(classes, t)
     fields = {}
     ann = {}
+    excl = set(own_excluded(cd))
+    if not (cd.get("bases") or []):
+        excl.update(SCHEMA_EXCLUDED)
     for b in reversed(cd.get("bases") or []):
         fb = flatten(classes, b)
         for fd in fb["fields"]:
             fields[fkey(fd)] = fd
         ann.update(fb["ann"])
+        excl.update(fb["excl"])
     for a in cd.get("drops") or []:
         fields.pop(a, None)
     own_ci = bool((o or {}).get("case_insensitive"))
@@ -177,7 +203,7 @@ def flatten(classes, t):
                     break
             deps.append(hit if hit is not None else d)
         fd2["deps"] = deps
-    return {"fields": list(fields.values()), "opts": o, "addition_type": at, "ann": ann}
+    return {"fields": list(fields.values()), "opts": o, "addition_type": at, "ann": ann, "excl": excl}
 
 
 def flat(case):
@@ -203,6 +229,16 @@ def _build(cd, bases=(), name="K"):
             defaults[fd["attname"]] = kw["default"]
     for a in cd.get("drops") or []:
         ns[a] = ...
+    for m in cd.get("methods") or []:
+        def meth(self):
+            return None
+        meth.__name__, meth.__qualname__ = m, f"{name}.{m}"
+        ns[m] = meth
+    for a in cd.get("privates") or []:
+        ns[a] = 1
+    for a in cd.get("classvars") or []:
+        from typing import ClassVar
+        ns["__annotations__"][a] = ClassVar[int]
     if "opts" not in cd or cd["opts"] is not None:
         ns["__options__"] = _options(cd.get("opts") or {}, cd.get("addition_type"))
     return type(name, tuple(bases) or (Schema,), ns), defaults
@@ -272,7 +308,7 @@ def _run(classes, target, built, runtime, data, force_dfs=None):
         try:
             val = getattr(inst, a)
             ga[a] = vtext(val)
-            if a in defaults and isinstance(val, (list, dict)) and val is defaults[a]:
+            if a in defaults and shares_mutable(val, defaults[a]):
                 fresh = False
         except AttributeError:
             ga[a] = None
@@ -363,6 +399,7 @@ def impl(case):
         ty = f.type
         types[f.attname] = "none" if ty is None else ("any" if ty is Any else getattr(ty, "__name__", repr(ty)))
     res["types"] = types
+    res["exclude_vars"] = sorted(cls.__parser__.exclude_vars)
     at = cd.get("addition_type")
     if at:
         tab = {}
@@ -422,7 +459,8 @@ def flag_on(fl, v, omode, fmode, static=False):
         own = (not static) and bool(PRED_FN[fl["pred"]](v))
     elif isinstance(fl, str):
         own = omode is not None and omode in fl
-    return own or (omode is not None and fmode is not None and omode not in fmode)
+    # `mode='rw'` lists the supported modes; no mode - or an empty one - supports all
+    return own or (omode is not None and bool(fmode) and omode not in fmode)
 
 
 def contract(case, fpt, addconv):
@@ -518,10 +556,11 @@ def contract(case, fpt, addconv):
     for k, v in data:
         if any(nk(f, k) in f["acc"] for f in fields):
             continue
-        if o["addition"] is None:
-            continue
         if o["addition"] is False:
             errs.append(("ExceedError", k))
+            continue
+        if o["addition"] is None or k in cd["excl"]:
+            # dropped; the names the class keeps for itself (methods, _private, ClassVar) are never kept
             continue
         val = vtext(v)
         if typed:
@@ -607,6 +646,7 @@ def key_table(case):
             ks.update(fd.get("alias_from") or [])
             ks.update(fd.get("deps") or [])
         ks.update(cd.get("drops") or [])
+        ks.update(own_excluded(cd))
     ks.update(k for k, _ in case["data"])
     for k in list(ks):
         ks.add(k.lower())
@@ -661,7 +701,8 @@ def model_class(cd, ix):
     od = cd.get("opts") or {}
     return {"fields": fields, "opts": model_opts(od) if own else None,
             "addition_typed": bool(cd.get("addition_type")) and od.get("addition") is True,
-            "bases": list(cd.get("bases") or []), "drops": [ix[a] for a in cd.get("drops") or []]}
+            "bases": list(cd.get("bases") or []), "drops": [ix[a] for a in cd.get("drops") or []],
+            "excluded": [ix[a] for a in own_excluded(cd)]}
 
 
 def model_line(case, io, legacy=None):
@@ -702,6 +743,7 @@ def model_line(case, io, legacy=None):
         "lower": [ix[k.lower()] for k in keys], "islower": [k.islower() for k in keys],
         "fp": fp, "pred": pred, "addconv": [[t, x] for t, x in sorted((io.get("addconv") or {}).items())],
         "classes": [model_class(c, ix) for c in classes], "target": target,
+        "schema_excluded": [ix[k] for k in SCHEMA_EXCLUDED if k in ix],
         "runtime": model_opts(case.get("runtime")),
         "data": [[ix[k], vtext(v)] for k, v in case["data"]],
         "legacy": legacy or {},
@@ -793,14 +835,14 @@ def gen_field(rng: random.Random, i: int, n: int, rich: float = 1.0):
         fd["required"] = rng.choice([None, None, None, True, False, False, "r", "w", "rw", "a"])
         dk = rng.choice(["none", "none", "value", "value", "factory"])
         if dk != "none":
-            v = rng.choice([5, "5", 0, "d", [1], None if False else 6])
+            v = rng.choice([5, "5", 0, "d", [1], 6, [[1]], {"k": [1]}])
             fd["default"] = {"v": v, "factory": dk == "factory"}
         else:
             fd["default"] = None
         fd["defer"] = p() < 0.15
         fd["no_input"] = rng.choice([False] * 6 + [True, "r", "w", "a", "ra", {"pred": "falsy"}])
         fd["no_output"] = rng.choice([False] * 6 + [True, "r", "w", "a", "wa", {"pred": "falsy"}, {"pred": "none"}])
-        m = rng.choice([None] * 5 + ["r", "w", "rw", "ra", "wa"])
+        m = rng.choice([None] * 5 + ["r", "w", "rw", "ra", "wa"] + ([""] if p() < 0.5 else []))
         fd["mode"] = m
         if m == "r" and p() < 0.4:
             fd["mode_kw"] = "readonly"
@@ -892,6 +934,10 @@ def gen_data(rng: random.Random, cd, copts):
     for _ in range(rng.choice([0, 0, 1, 1, 2])):
         k = rng.choice(["zz", "Q", "extra", "A", "b1", "ZZ", "a"])
         data.append([k, rng.choice([1, "1", "x", None])])
+    if rng.random() < 0.12:
+        # a name the class keeps for itself, given as an input key
+        k = rng.choice(sorted(cd.get("excl") or []) if cd.get("excl") and rng.random() < 0.7 else ["update", "__options__", "_zz"])
+        data.append([k, rng.choice([1, "x"])])
     rng.shuffle(data)
     seen, out = set(), []
     for k, v in data:
@@ -899,6 +945,16 @@ def gen_data(rng: random.Random, cd, copts):
             seen.add(k)
             out.append([k, v])
     return out
+
+
+def add_own_names(rng, cd, pool=("meth", "_q", "cv")):
+    """now and then the class body also has a method, a private attribute or a ClassVar (no fields: exclude_vars)"""
+    if rng.random() < 0.2:
+        cd["methods"] = [pool[0]]
+    if rng.random() < 0.12:
+        cd["privates"] = [pool[1]]
+    if rng.random() < 0.08:
+        cd["classvars"] = [pool[2]]
 
 
 def gen_case(rng: random.Random, maxfields=4):
@@ -923,8 +979,9 @@ def gen_case(rng: random.Random, maxfields=4):
     cd = {"fields": fields, "opts": copts}
     if copts.get("addition") is True and rng.random() < 0.5:
         cd["addition_type"] = rng.choice(["int", "str"])
+    add_own_names(rng, cd)
     runtime = gen_opts(rng, True) if rng.random() < 0.5 else None
-    return {"cls": cd, "runtime": runtime, "data": gen_data(rng, cd, copts)}
+    return {"cls": cd, "runtime": runtime, "data": gen_data(rng, flatten([cd], 0), copts)}
 
 
 def gen_hier_case(rng: random.Random):
@@ -940,6 +997,7 @@ def gen_hier_case(rng: random.Random):
             fd["ci"] = None
     bopts = gen_opts(rng, False)
     classes = [{"fields": base_fields, "opts": bopts}]
+    add_own_names(rng, classes[0])
     if bopts.get("addition") is True and rng.random() < 0.4:
         classes[0]["addition_type"] = rng.choice(["int", "str"])
     used = n0
@@ -1002,6 +1060,7 @@ def gen_hier_case(rng: random.Random):
             if len(allf) > 1 and rng.random() < 0.25 and not fd.get("bare"):
                 t = rng.choice([f for f in allf if f["attname"] != fd["attname"]] or allf)
                 fd["deps"] = [rng.choice([t["attname"], t.get("alias") or t["attname"]] + list(t.get("alias_from") or []))]
+        add_own_names(rng, cd, (f"meth{j}", f"_q{j}", f"cv{j}"))
         classes.append(cd)
     for i, fd in enumerate(base_fields):
         if n0 > 1 and rng.random() < 0.25:
@@ -1155,6 +1214,10 @@ class C05(Check):
         norm = lambda d: {k: ("none" if v in ("any", "Rule") else v) for k, v in d.items()}
         if norm(want_t) != norm(io.get("types") or {}):
             return f"field types: implementation {io.get('types')} vs model {want_t}"
+        want_x = sorted({keys[i] for i in mo.get("exclude_vars", [])})
+        got_x = sorted(k for k in (io.get("exclude_vars") or []) if k in set(keys))
+        if want_x != got_x:
+            return f"exclude_vars (on the keys of the case): implementation {got_x} vs model {want_x}"
         for k in keys:           # the theorems' hypothesis LowerLaws, on the keys of this case
             if k.lower().lower() != k.lower() or (k.islower() and k.lower() != k):
                 return f"LowerLaws does not hold for key {k!r}"
